@@ -77,11 +77,11 @@ theorem identList_length {s a r} (h : identList s = .ok a r) : r.length < s.leng
 
 theorem preRelease_length {s a r} (h : preRelease s = .ok a r) : r.length < s.length := by
   unfold preRelease at h
-  simp only at h
   split at h
   · rename_i a' r' h'
     cases h
     have := identList_length h'
+    unfold stripHyphen at this
     split at this <;> simp at * <;> omega
   · cases h
 
